@@ -2,7 +2,6 @@ import S3V.Base.Utf8
 import S3V.Model.DtoRange
 import S3V.Model.DtoCopySource
 import S3V.Model.DtoTimestamp
-import S3V.Model.DtoEpochFloat
 import S3V.Model.DtoContentType
 import S3V.Spec.Dto
 /-!
@@ -140,12 +139,9 @@ def fhx : Option Bytes → String
   | none => "!"
   | some b => hx b
 
-/-- model of the three `Timestamp::format` arms; the epoch arm falls back on the float model -/
-def modelFormat (t : Ts) : String × String × Option String :=
-  (fhx (formatDateTime t), fhx (formatHttpDate t),
-   match formatEpochWhole t with
-   | some b => some (hx b)
-   | none => (formatEpochFloat t.unix t.nanos).map hx)
+/-- model of the three `Timestamp::format` arms -/
+def modelFormat (t : Ts) : String × String × String :=
+  (fhx (formatDateTime t), fhx (formatHttpDate t), fhx (formatEpochSeconds t))
 
 /-- instants of the years 1 … 9999 (UTC): the property's quantifier -/
 def inYears (unix : Int) : Bool := -62135596800 ≤ unix && unix ≤ 253402300799
@@ -171,14 +167,17 @@ def judgeTexts (t : Ts) (dt http epoch : String) : Option (String × String) :=
     match (if epoch = "!" then none else unhx epoch) with
     | none => some ("ts-format-error", "EpochSeconds not produced")
     | some b =>
-      match DtoSpec.readEpoch b with
+      -- the text is a decimal number of seconds `num / 10^k`; the instant is `want / 10^9`
+      match DtoSpec.readDecimal b with
       | none => some ("ts-format-epoch", s!"text {String.fromUTF8! ⟨b.toArray⟩} is not a decimal number")
-      | some (u, n) =>
+      | some (num, k) =>
         let want : Int := t.unix * 1000000000 + t.nanos
-        let got : Int := u * 1000000000 + n
-        -- the text goes through f64: it must denote the instant to within half a millisecond
-        let ok := (got - want).natAbs < 500000
-        if ok then none else some ("ts-format-epoch", s!"text {String.fromUTF8! ⟨b.toArray⟩} does not denote {t.unix}.{t.nanos}")
+        let scale : Int := ((10 ^ k : Nat) : Int)
+        let exact := num * 1000000000 = want * scale
+        -- an instant finer than a millisecond is outside the property's quantifier: to within half a millisecond
+        let near := t.nanos % 1000000 ≠ 0 && (num * 1000000000 - want * scale).natAbs < 500000 * 10 ^ k
+        if exact || near then none
+        else some ("ts-epoch-f64-text", s!"text {String.fromUTF8! ⟨b.toArray⟩} does not denote the instant {t.unix} s + {t.nanos} ns")
   j1.orElse fun _ => j2.orElse fun _ => j3
 
 def judgeTsParse (id : String) (fmt : TsFormat) (text : Bytes) (res dt http epoch : String) : String :=
@@ -219,10 +218,7 @@ def judgeTsParse (id : String) (fmt : TsFormat) (text : Bytes) (res dt http epoc
   | none =>
     let (mdt, mhttp, mepoch) := match model with
       | some t => modelFormat t
-      | none => ("-", "-", some "-")
-    match mepoch with
-    | none => unmodelled id "epoch-float-subnormal"
-    | some mepoch =>
+      | none => ("-", "-", "-")
     let modelOut := s!"{tsStr model} {mdt} {mhttp} {mepoch}"
     let implOut := s!"{res} {dt} {http} {epoch}"
     if implOut ≠ modelOut then disagree id modelOut implOut
@@ -231,7 +227,8 @@ def judgeTsParse (id : String) (fmt : TsFormat) (text : Bytes) (res dt http epoc
       | .dateTime, some t, none => if t.nanos = 999999999 then "ts-parse-datetime-leap-or-lenient" else "ts-parse-datetime-lenient"
       | .httpDate, some _, some _ => "ts-parse-httpdate"
       | .httpDate, some _, none => "ts-parse-httpdate-lenient"
-      | .epochSeconds, some t, some _ => if t.nanos = 0 then "ts-parse-epoch-whole" else "ts-parse-epoch-fraction"
+      | .epochSeconds, some t, some _ =>
+        (if text.head? = some 45 then "ts-parse-epoch-neg" else "ts-parse-epoch") ++ (if t.nanos = 0 then "-whole" else "-fraction")
       | .epochSeconds, some _, none => "ts-parse-epoch-lenient"
       | .dateTime, none, _ => "ts-parse-datetime-err"
       | .httpDate, none, _ => "ts-parse-httpdate-err"
@@ -258,28 +255,25 @@ def judgeTsRoundtrip (id : String) (t : Ts) (outs : List String) : String :=
         some ("ts-reparse-httpdate", s!"parsed back {httpBack}")
       else if t.nanos % 1000000 ≠ 0 then none   -- finer than a millisecond: outside the quantifier, only the text is judged
       else
+        -- a millisecond instant is written exactly: parsing the text gives the instant back
         match unTs epochBack with
         | some (some b) =>
-          let want : Int := t.unix * 1000000000 + t.nanos
-          let got : Int := b.unix * 1000000000 + b.nanos
-          if (got - want).natAbs < 500000 then none else some ("ts-reparse-epoch", s!"parsed back {epochBack}")
+          if b.unix = t.unix && b.nanos = t.nanos then none else some ("ts-reparse-epoch", s!"parsed back {epochBack}")
         | _ => some ((if t.unix < 0 then "ts-epoch-pre1970" else "ts-epoch-f64-text"),
             s!"own output {match unhx epoch with | some b => String.fromUTF8! ⟨b.toArray⟩ | none => epoch} not parsed back: {epochBack}")
     match sf with
     | some (cls, d) => specfail id cls d
     | none =>
       let (mdt, mhttp, mepoch) := modelFormat t
-      match mepoch with
-      | none => unmodelled id "epoch-float-subnormal"
-      | some mepoch =>
       let back := fun (f : TsFormat) (s : String) =>
         if s = "!" then "-" else match unhx s with | some b => tsStr (Ts.parse f b) | none => "?"
       let modelOut := s!"{mdt} {back .dateTime mdt} {mhttp} {back .httpDate mhttp} {mepoch} {back .epochSeconds mepoch}"
       let implOut := " ".intercalate outs
       if implOut ≠ modelOut then disagree id modelOut implOut
       else agree id (if !inYears t.unix then "ts-rt-outside-years-1-9999"
-        else if t.off = 0 then (if t.nanos % 1000000 = 0 then "ts-rt-utc-ms" else "ts-rt-utc-ns")
-        else (if t.nanos % 1000000 = 0 then "ts-rt-offset-ms" else "ts-rt-offset-ns"))
+        else (if t.off = 0 then (if t.nanos % 1000000 = 0 then "ts-rt-utc-ms" else "ts-rt-utc-ns")
+          else (if t.nanos % 1000000 = 0 then "ts-rt-offset-ms" else "ts-rt-offset-ns")) ++
+          (if t.unix < 0 then "-pre1970" else ""))
   | _ => badline id
 
 /-! ### copy source -/
